@@ -283,7 +283,11 @@ def gen_case(rng, variant):
         x = x * float(gens.pick(rng, [1e-6, 1e-3, 1e3, 1e6]))
     elif r0 < .40:
         # "all finite signals": integer-typed recordings (raw counts); results must equal those of the same values as floats
-        x = np.round(x / max(np.abs(x).max(), 1e-12) * float(gens.pick(rng, [50, 1000]))).astype(gens.pick(rng, [np.int64, np.int32, np.int16]))
+        x = np.round(x / max(np.abs(x).max(), 1e-12) * float(gens.pick(rng, [50, 1000])))
+        if rng.random() < .4:
+            x = (x - x.min()).astype(gens.pick(rng, [np.uint16, np.uint32, np.uint64]))      # raw counts above a floor of 0, unsigned storage
+        else:
+            x = x.astype(gens.pick(rng, [np.int64, np.int32, np.int16]))
     elif r0 < .46 and variant in ('ens', 'cens', 'sift', 'mask'):
         # degenerate but finite: constant (zero-variance) recordings
         x = np.full(len(x), float(gens.pick(rng, [0.0, 1.0, -3.5])))
